@@ -3,6 +3,7 @@ package main
 import (
 	"fmt"
 	"go/token"
+	"go/types"
 	"strings"
 
 	"golang.org/x/tools/go/ssa"
@@ -578,6 +579,56 @@ func c19Addresses(c *Ctx, rule string) {
 		}
 		c.check(good && len(returnsUnder(f, nil)) == 1, rule, "isIPv6/contains-colon", w.pos(f.Pos()), "an address is IPv6 exactly when its text contains ':'", "isIPv6 is not `strings.Contains(ip, \":\")`: createHostPort brackets addresses by it, so an IPv4 address taken for IPv6 (net.ParseIP returns 16 bytes for both) is added as [a.b.c.d]:port and never matches the key it is removed or recognised under")
 	}
+	// the addresses the resolver reports are the plain texts of the resolved IPs: createHostPort is the one place that
+	// puts an IPv6 address into brackets. (A resolver that brackets too yields [[::1]]:5060, which cannot be resolved:
+	// the IPv6 addresses of a host never join a udp rotation and are unreachable in a tcp one. Repaired as D25.)
+	if f := c.fn(rule, "(*DynamicHostResolver).doResolve"); f != nil {
+		good, n := true, 0
+		eachInstr(f, func(in ssa.Instruction) {
+			call, ok := in.(*ssa.Call)
+			if !ok {
+				return
+			}
+			b, isB := call.Call.Value.(*ssa.Builtin)
+			if !isB || b.Name() != "append" || len(call.Call.Args) != 2 {
+				return
+			}
+			if !isStringSliceType(call.Type()) {
+				return
+			}
+			for _, e := range varargs(call.Call.Args[1]) {
+				for _, v := range phiLeaves(e) {
+					n++
+					cc, _ := callOfResult(v)
+					if cc == nil || w.calleeName(cc) != "(net.IP).String" {
+						good = false
+					}
+				}
+			}
+		})
+		// or a list sized by the answer and filled by index
+		eachInstr(f, func(in ssa.Instruction) {
+			st, ok := in.(*ssa.Store)
+			if !ok {
+				return
+			}
+			ia, ok := st.Addr.(*ssa.IndexAddr)
+			if !ok || !isStringSliceType(ia.X.Type()) {
+				return
+			}
+			if _, isMk := strip(ia.X).(*ssa.MakeSlice); !isMk {
+				return
+			}
+			for _, v := range phiLeaves(st.Val) {
+				n++
+				cc, _ := callOfResult(v)
+				if cc == nil || w.calleeName(cc) != "(net.IP).String" {
+					good = false
+				}
+			}
+		})
+		c.check(good && n >= 1, rule, "doResolve/plain-addresses", w.pos(f.Pos()), "the resolver reports ip.String() as it is", "doResolve does not report the resolved addresses as plain ip.String() texts (it brackets or rewrites them): createHostPort brackets every address that contains ':' again, [[::1]]:5060 cannot be resolved, so the IPv6 addresses a host name resolves to never join the rotation")
+	}
 	if f := c.fn(rule, "(*RoundRobinBackend).createHostPort"); f != nil {
 		v6 := func(a Atom) bool {
 			if a.Kind != "bool" {
@@ -710,4 +761,13 @@ func c19FirstRegistration(c *Ctx, rule string) {
 		}
 	}
 	c.check(good, rule, "ResolveHost/first-registration", w.ipos(ar), "the first addresses of a new host go through addressResolved", "for a host name seen for the first time ResolveHost does not hand the resolved addresses to addressResolved (which records them as known before notifying): the next periodic resolution adds every address a second time, and a vanished address leaves a ghost backend in the rotation")
+}
+
+func isStringSliceType(t types.Type) bool {
+	sl, ok := t.Underlying().(*types.Slice)
+	if !ok {
+		return false
+	}
+	b, ok := sl.Elem().Underlying().(*types.Basic)
+	return ok && b.Kind() == types.String
 }
